@@ -21,8 +21,13 @@ RWPiWeight(S, i) == LET F(e) == (Cardinality(e) - 1) * (Cardinality(e) - 1) IN S
 RWPiTotal(S)     == LET F(i) == RWPiWeight(S, i) IN SumSet(F, S.nodes)
 RWPi(S, i)       == RNorm(<<RWPiWeight(S, i), RWPiTotal(S)>>)
 
+\* TLCEval: TLC evaluates function constructors lazily (once per application) unless told otherwise
+RWKMat(S)   == TLCEval([p \in S.nodes \X S.nodes |-> RWK(S, p[1], p[2])])
+RWPiVec(S)  == TLCEval([i \in S.nodes |-> RWPi(S, i)])
+
 \* one step of the density: (d K)[j] = sum_i d[i] K[i,j]   (d : node -> rational)
-RWPush(S, d) == [j \in S.nodes |-> LET F(i) == RMul(d[i], RWK(S, i, j)) IN RSumSet(F, S.nodes)]
+RWPushK(V, K, d) == TLCEval([j \in V |-> LET F(i) == RMul(d[i], K[i, j]) IN RSumSet(F, V)])
+RWPush(S, d)     == RWPushK(S.nodes, RWKMat(S), d)
 RWMass(S, d) == LET F(i) == d[i] IN RSumSet(F, S.nodes)
 
 \* a sampled walk: consecutive nodes are distinct and share a hyperedge (K-positive steps)
